@@ -99,7 +99,11 @@ def gen_csv(rng):
             elif typ == "id":
                 row.append(("v%03d" % i) if id_style == "str" else str(1000 + i))
             elif typ == "weight":
-                row.append(str(rng.choice([1, 1, 2, 3, 10])) if rng.random() < 0.85 else rng.choice(["1.5", "2.5", "0.25"]))
+                u = rng.random()
+                # weights: whole numbers, small dyadic fractions, and fine dyadic fractions (2^-20 steps) -- all exactly
+                # representable as floats with exact sums, so the expected total is unambiguous
+                row.append(str(rng.choice([1, 1, 2, 3, 10])) if u < 0.75 else rng.choice(["1.5", "2.5", "0.25"]) if u < 0.9
+                           else rng.choice(["9.5367431640625e-07", "2.00000095367431640625", "0.50000095367431640625"]))
             else:
                 row.append("P%d" % rng.randint(1, 3))
         rows.append(row)
